@@ -46,14 +46,18 @@ class Ctx:
         self.exhaustive = []
         self.extra = {}
         self.classifiers = {}
+        self.proofs_ok = False
         self.findings = lib.known_findings(pid)
 
     def scale(self, quick, thorough):
         return thorough if self.thorough else quick
 
     # ---- correspondence: model vs implementation on the same inputs
-    def corr(self, cases, impl_fn, label, nontrivial=lambda arg, out: not isinstance(out, lib.E)):
-        """cases: list of (op, arg). impl_fn(op, arg) -> canonical python value / lib.E."""
+    def corr(self, cases, impl_fn, label, nontrivial=lambda arg, out: not isinstance(out, lib.E), decisive=None):
+        """cases: list of (op, arg). impl_fn(op, arg) -> canonical python value / lib.E.
+        decisive(op, arg) -> True when the theorems of this property determine the model's answer on
+        this input (it lies in the proved domain): then, with the proofs intact, a disagreement means the
+        implementation deviates from the proved-standard behaviour and is reported as a failing input."""
         if not cases:
             return
         model = lib.run_model(cases)
@@ -69,6 +73,9 @@ class Ctx:
                     self.disagreements.append({"label": label, "op": op, "arg": lib.v_text(arg),
                                                "impl": lib.v_text(got), "model": lib.v_text(m)})
                 self.dist[f"corr:{label}:DISAGREE"] += 1
+                if decisive is not None and self.proofs_ok and decisive(op, arg):
+                    self.fail("model_vs_impl:" + label, {"op": op, "arg": lib.v_text(arg)},
+                              lib.v_text(m), lib.v_text(got))
         if len(self.samples) < 12:
             op, arg = cases[len(cases) // 2]
             self.samples.append({"kind": "correspondence", "label": label, "op": op, "arg": lib.v_text(arg)[:200],
@@ -106,6 +113,31 @@ class Ctx:
             self.samples.append(s)
 
 
+def generic_replay(ctx, mod, rp):
+    """re-execute exactly the recorded case against the current implementation and model"""
+    case = rp.get("case", {})
+    if rp.get("kind") == "obligation":
+        with lib.Lock():
+            ok_tr, _ = lib.translator()
+            ok_b, _ = lib.coq_build([f"properties/{ctx.pid}.vo"]) if ok_tr else (False, "")
+            ok_m, _ = lib.model_build()
+        ctx.proofs_ok = ok_tr and ok_b
+        if ok_m:
+            mod.run(ctx)
+        return (not ctx.proofs_ok) or bool(ctx.disagreements) or bool(ctx.failures)
+    if str(rp.get("label", "")).startswith("model_vs_impl:") and "op" in case:
+        with lib.Lock():
+            lib.model_build()
+        arg = lib.v_parse(case["arg"])
+        m = lib.run_model([(case["op"], arg)])[0]
+        got = lib.canon(mod.impl(case["op"], arg))
+        print(f"model: {lib.v_text(m)}  implementation: {lib.v_text(got)}")
+        return lib.canon(m) != got
+    with lib.Lock():
+        lib.model_build()
+    return mod.replay(ctx, rp)
+
+
 def main():
     ap = argparse.ArgumentParser()
     ap.add_argument("pid")
@@ -121,7 +153,7 @@ def main():
 
     if args.replay:
         rp = json.load(open(args.replay))
-        still = mod.replay(ctx, rp)
+        still = generic_replay(ctx, mod, rp)
         if still:
             print(f"VIOLATION property={pid} replay={args.replay}")
             sys.exit(1)
@@ -157,7 +189,8 @@ def main():
                     extra = [n for n in names if n not in allowed]
                     if extra:
                         ctx.obligation_failed(f"theorem {t} depends on undeclared axioms: {extra}")
-            proofs_ok = ok_pa and not gate
+            proofs_ok = ok_pa and not gate and not ctx.obligation_failures
+            ctx.proofs_ok = proofs_ok
         ok_m, mlog = lib.model_build()
         if not ok_m:
             ctx.obligation_failed("model/extraction build failed: " + mlog[-400:])
